@@ -236,6 +236,25 @@ def run(chk):
                     ub = [min(s.shapes[0].bounds[i] for s in got) for i in (0, 1)] + [max(s.shapes[0].bounds[i] for s in got) for i in (2, 3)]
                     if bb is None or bb[0] > ub[0] + 1.5 or bb[1] > ub[1] + 1.5 or bb[2] < ub[2] - 1.5 or bb[3] < ub[3] - 1.5:
                         chk.violation(f"forest {k} [{fmt}]: base glyph bounds {bb} do not cover the layers' bounds {ub}", replay)
+    # solid fills whose colour spells its own alpha, on shapes with an opacity of their own: the COLRv0 layer's palette entry
+    # carries the product (guards fix 4df48a8)
+    for k, (label, glyphs) in enumerate(g for g in S.stop_alpha_grid() if g[0].startswith("solid")):
+        fmt = V0_FORMATS[k % 3]
+        cfg = build.base_config(color_format=fmt, keep_glyph_names=True, clip_to_viewbox=False)
+        srcs = CC.sources_from(glyphs)
+        replay = {"kind": "solid-alpha", "label": label, "format": fmt, "svgs": [x.svg_text for x in srcs]}
+        chk.case(key=("solid-alpha", label), nontrivial=True)
+        chk.traces_validated += 1
+        try:
+            _, font = build.build(cfg, srcs, already_pico=True)
+        except Exception as e:
+            chk.violation(f"valid source fails to build ({fmt}) [{label}]: {type(e).__name__}: {str(e)[:160]}", replay)
+            continue
+        for gi, gname, exp, order in check_exactly_once(chk, font, cfg, fmt, srcs, f"solid alpha [{label}]", replay):
+            got = oracle_cmp.colr_layers(font, gname)
+            for p in oracle_cmp.compare(exp, got, CC.layer_deltas(glyphs, cfg, 0.1)[0], grid=14, ctx=f"solid alpha [{label}] [{fmt}]: "):
+                if "too small" not in p:
+                    chk.violation(p, replay)
     # any source: exactly once, in glyf and COLRv0 flavours
     for k in range(50 if quick else 1500):
         r = common.rng("C03", "r", k)
